@@ -178,6 +178,10 @@ class World:
             stmt = f"{text}({', '.join(texts)})"
         elif via == "runner":
             stmt = f"run({', '.join([text] + texts)})"
+        elif via == "spread-runner":   # the function value travels through a spread argument
+            stmt = f"run({', '.join(['[' + text + ']..'] + texts)})"
+        elif via == "spread-list":     # … or through a spread list item
+            stmt = f"[[{text}]..][0]({', '.join(texts)})"
         else:   # the runner is itself reached through an object: its own `this` must not leak into the callee
             stmt = f"o3.go({', '.join([text] + texts)})"
         for v in vals:
@@ -248,6 +252,12 @@ class World:
                 sc.stmt(f"{name}[{i}] = {text}")
                 self.lists[name][i] = fv
                 sc.tags.append("list-set")
+            elif r == 2 and rng.random() < 0.5:
+                src_l = rng.choice(sorted(self.lists))
+                name = self.fresh("l")
+                sc.stmt(f"{name} := [{src_l}.., {text}]")
+                self.lists[name] = list(self.lists[src_l]) + [fv]
+                sc.tags.append("list-spread")
             else:
                 name = rng.choice(sorted(self.lists))
                 sc.stmt(f"{name} += [{text}]")
@@ -319,7 +329,7 @@ class World:
             if fe is None:
                 return
             text, fv = fe
-            via = rng.choice(["direct", "direct", "runner", "method-runner"])
+            via = rng.choice(["direct", "direct", "runner", "method-runner", "spread-runner", "spread-list"])
             if via == "method-runner" and "go" not in self.objs["o3"].slots:
                 sc.stmt("o3.go = run")
                 self.objs["o3"].slots["go"] = FV("run")
